@@ -228,9 +228,45 @@ pub fn run_c08(env: &Env, tier: &str) -> i32 {
             return 2;
         }
     };
-    let viols = judge("C08", &units, &res);
+    let mut viols = judge("C08", &units, &res);
+    // accept side over the whole run-time corpus: every catalogue / random declaration is a well-formed
+    // declaration of the documented grammar and must be accepted (with its derive set and glue)
+    let rt_decls = crate::corpus::rt_decls(env, tier);
+    let mut rt_rejected = 0u64;
+    match crate::corpus::build_rt(env, &env.work.join("gen/rt"), "rtcorpus", &rt_decls, tier == "thorough") {
+        Ok(built) => {
+            for (id, why) in &built.rejected {
+                rt_rejected += 1;
+                if let Some(d) = rt_decls.iter().find(|d| &d.id == id) {
+                    let class = d.tags.first().cloned().unwrap_or_default();
+                    viols.push(CViol {
+                        signature: format!("C08|runtime-corpus:{}|expected=accept|got=reject|{}", class.split(':').next().unwrap_or(""), why.split_whitespace().next().unwrap_or("")),
+                        unit: Unit {
+                            id: id.clone(),
+                            class: format!("runtime-corpus:{class}"),
+                            features: vec!["serde".into(), "regex".into(), "arbitrary".into(), "new_unchecked".into()],
+                            source: vmodel::cf::unit_source(d, false, ""),
+                            expect: Expect::Accept,
+                            expect_errors: vec![],
+                            tests_must_fail: vec![],
+                            tests_must_pass: vec![],
+                            decl: d.decl_text(),
+                            nontrivial: true,
+                        },
+                        expected: "accepted by rustc".into(),
+                        actual: format!("rejected: {why}"),
+                    });
+                }
+            }
+        }
+        Err(e) => {
+            eprintln!("INCONCLUSIVE: {e}");
+            return 2;
+        }
+    }
+    let n_rt = rt_decls.len();
     let rule = "cases = declarations generated from the documented attribute grammar (inner-type family x sanitizers x validators with literal and expression bounds in every relative position x derive sets x flags x crate-feature set x hostile type / type-parameter names), each with at most one injected fault, paired with the verdict of an independent accept/reject predicate written from the README and the property statement; the judge is rustc (cargo check rounds with per-file attribution); for expression-valued contradictions and invalid defaults the generated #[test]s are run and must fail (and pass for consistent declarations). Non-trivial = distinct unit carrying an injected fault, a hostile name, or using at least 3 grammar features.";
-    report(env, "C08", tier, &units, &res, viols, rule, false, json!({}), t0)
+    report(env, "C08", tier, &units, &res, viols, rule, false, json!({"runtime_corpus_declarations_required_to_compile": n_rt, "runtime_corpus_declarations_rejected": rt_rejected}), t0)
 }
 
 pub fn run_c05(env: &Env, tier: &str) -> i32 {
